@@ -10,7 +10,7 @@ def run(ctx):
                 programs=list(__import__("checks.durable_common", fromlist=["CURATED"]).CURATED),
                 oracle_fns=[oracles.c11],
                 n_scen=(5, 14),
-                scen_kw={"crash": 0.7, "paging": 0.5, "small_batch": 0.6},
+                scen_kw={"crash": 0.7, "paging": 0.5, "small_batch": 0.6, "faults": 0.4},
                 sweep=["s05_wfcb_childfail_wfcfail"],
                 post=lambda c, ex: batch_limit_sweep(c, ["s07_nested_children", "s03_child_wfc"] if c.quick else
                                                      ["s07_nested_children", "s03_child_wfc", "s05_wfcb_childfail_wfcfail",
@@ -33,6 +33,11 @@ def run(ctx):
         for k in range(3 if ctx.quick else 10):
             items.append((p, {"seed": 1100 + k, "api_latency": (0.05, 0.3, 0.0)[k % 3], "max_inv": 12,
                               "strategy": "pct" if k % 2 else "random"}))
+    # a checkpoint call that the service APPLIED but answered with an error (5xx / throttling / a lost answer), at every call index:
+    # whatever the client layer does about it, nothing is sent twice
+    from checks.durable_check import fault_enumeration
+    fault_enumeration(ctx, ["s01_step_wait_retry", "s02_amo_retry_caughtfail", "s07_nested_children"], [oracles.c11],
+                      faults=["service500", "throttle429"], seed_salt=1111)
     # oversized early-completed calls replayed in later invocations (rebuilt from the children's records): an unfinished branch
     # below the completed call must not send anything any more
     for nm in ("m21_oversized_early_straggler", "m22_oversized_early_parked", "m23_oversized_early_failing_straggler"):
